@@ -6,7 +6,7 @@
    matrix with orthonormal columns, which keeps it right-isometric, so the same holds there.  PARTIAL: that Generator.choice draws
    according to the vector it is given and never an entry of probability zero, and the in-place measure() are tied
    numerically (all branches forced), not mechanised. *)
-From Coq Require Import List Arith Ring.
+From Coq Require Import List Arith ZArith Ring.
 Import ListNotations.
 From Yaqs Require Import LinAlg.TT Model.Sampling Proofs.SamplingP Model.Params Proofs.ParamsP.
 
@@ -39,6 +39,10 @@ Print Assumptions C12_rotated_basis_weights_sum.
 Theorem C12_bit_encoding : forall l, binary l -> forall i, i < length l -> (encode l / 2 ^ i) mod 2 = nth i l 0.
 Proof. exact encode_bit. Qed.
 Print Assumptions C12_bit_encoding.
+Theorem C12_keys_of_wide_registers : forall l, encodeZ l = Z.of_nat (encode l).
+Proof. exact encodeZ_encode. Qed.
+Print Assumptions C12_keys_of_wide_registers.
+
 Theorem C12_keys_injective : forall l l', binary l -> binary l' -> length l = length l' -> encode l = encode l' -> l = l'.
 Proof. exact encode_injective. Qed.
 Print Assumptions C12_keys_injective.
